@@ -284,11 +284,13 @@ def replay(chk, h, idx, nnx, mods, vts):
       new_state = nnx.State.from_flat_path(flat)
       if variant == 1:       # only the changed paths
         new_state = nnx.State.from_flat_path({conv_path(kk, heap): flat[conv_path(kk, heap)] for kk in e['paths']})
+      if variant == 2:       # the same update handed over as a pure dict of arrays (as nnx.to_pure_dict + tree_map would produce)
+        new_state = nnx.to_pure_dict(new_state)
       try:
         nnx.update(root, new_state)
       except Exception as ex:
-        arr_in_pytree = any(not isinstance(v, nnx.VariableState) for v in dict(nnx.to_flat_state(new_state)).values()) and \
-            'immutable node' in str(ex)
+        arr_in_pytree = 'immutable node' in str(ex) and any(
+            not isinstance(v, nnx.VariableState) for v in dict(nnx.to_flat_state(nnx.state(root))).values())
         return key + (':array-in-container' if arr_in_pytree else ''), f'nnx.update raised {type(ex).__name__}: {str(ex)[:100]}'
       heap = e['heap']
       if canon_real(root, nnx, mods, vts) != canon_model(heap):
